@@ -683,6 +683,7 @@ func (fr *Frame) slice(x *ssa.Slice, st *State, g string) {
 			fr.safe("slice", g, and(app("<=", "0", lo), app("<=", lo, hi), app("<=", hi, cp)), x.Pos(), "slice bounds out of range")
 		}
 		fr.setVal(x, "Slice", mkSlice(sarr(v.t), plus(soff(v.t), lo), minus(hi, lo), minus(lim, lo)))
+		fr.kvSubSliceFact(st, g, v, u.Elem(), lo, hi) // ext_kviter.go: id of a sub-window == kvsub(id of the window, lo, hi)
 	case *types.Pointer:
 		arr := u.Elem().Underlying().(*types.Array)
 		n := num(arr.Len())
